@@ -280,7 +280,7 @@ def _check_S(ctx, name, S, sv, cutoff, scale, case):
         got = np.sort(S)[::-1]
         K = len(got)
         ref = sv[:K] if K <= len(sv) else np.concatenate([sv, np.zeros(K - len(sv))])
-        if K > len(sv) or np.max(np.abs(ref - got), initial=0) > 1e-8 * scale or np.any(sv[K:] > 1e-8 * scale):
+        if K > len(sv) or not (np.max(np.abs(ref - got), initial=0) <= 1e-8 * scale) or np.any(sv[K:] > 1e-8 * scale):
             ctx.violation(name + ':spectrum', 'S %r numpy %r' % (got[:6], sv[:6]), case)
 
 
@@ -394,7 +394,7 @@ def do_eigh(ctx, rng):
         return feats, opts
     ref = np.linalg.eigvalsh(d)
     scale = max(1.0, nrm(d))
-    if len(W) != len(ref) or np.max(np.abs(np.sort(W) - ref)) > 1e-8 * scale:
+    if len(W) != len(ref) or not (np.max(np.abs(np.sort(W) - ref)) <= 1e-8 * scale):
         ctx.violation('eigh:spectrum', 'W %r numpy %r' % (np.sort(W)[:5], ref[:5]), case)
     if V is not None:
         Vd = V.to_ndarray()
@@ -425,7 +425,7 @@ def _match_spectra(w, ref, tol):
         return False
     for x in w:
         j = int(np.argmin([abs(x - y) for y in ref]))
-        if abs(x - ref[j]) > tol:
+        if not (abs(x - ref[j]) <= tol):
             return False
         ref.pop(j)
     return True
@@ -522,7 +522,7 @@ def do_pinv(ctx, rng):
     Bd = B.to_ndarray()
     s = max(1.0, nrm(d)) * max(1.0, nrm(Bd))
     ids = [nrm(d @ Bd @ d - d), nrm(Bd @ d @ Bd - Bd), nrm((d @ Bd).conj().T - d @ Bd), nrm((Bd @ d).conj().T - Bd @ d)]
-    if Bd.shape != d.shape[::-1] or max(ids) > 1e-8 * s * max(1.0, nrm(Bd)):
+    if Bd.shape != d.shape[::-1] or not (max(ids) <= 1e-8 * s * max(1.0, nrm(Bd))):
         ctx.violation('pinv:moore-penrose', 'residuals %r' % ids, case)
     _invariants(ctx, 'pinv', [B], case)
     return feats, {}
